@@ -426,6 +426,10 @@ func c07(c *Ctx) {
 	r.Rule("R07.T", "ReqPQ / ReqDHParams / SetClientDHParams assert the reply kind with comma-ok and return a non-nil value only on the ok edge", 3)
 	r.Rule("R07.W", "MTProto.encrypted is written only in NewMTProto and at the guarded point; SaveSession is called only from makeAuthKey and processResponse; Store only from SaveSession", 3)
 	r.Rule("R07.P", "a mismatch is reported as an error: no panic site on the abort paths of the server-reply checks", 1)
+	r.Rule("R07.H", "the value new_nonce_hash1 is compared with is SHA1(new_nonce | 0x01 | SHA1(auth_key)[0:8])[4:20] of this exchange's new_nonce and key", 1)
+	if c.verifySummaries("R07.H") {
+		c.handshakeFormulas("R07.H", map[string]bool{"new_nonce_hash1": true})
+	}
 
 	fn := c.fn("R07.G", load.RootMod, "*MTProto", "makeAuthKey")
 	if fn == nil {
